@@ -12,6 +12,7 @@ import (
 	"net/http"
 	"net/http/httptest"
 	"os"
+	"runtime"
 	"strings"
 	"time"
 
@@ -317,9 +318,129 @@ func genProxyCase(r *Rng, big bool) *PCase {
 	return c
 }
 
+// parkWriter is a ResponseWriter whose first Header() call - made by the handler between getting the
+// target's response headers and reading its body - runs a hook
+type parkWriter struct {
+	h        http.Header
+	status   int
+	body     bytes.Buffer
+	onHeader func()
+}
+
+func (w *parkWriter) Header() http.Header {
+	if f := w.onHeader; f != nil {
+		w.onHeader = nil
+		f()
+	}
+	return w.h
+}
+func (w *parkWriter) WriteHeader(c int) {
+	if w.status == 0 {
+		w.status = c
+	}
+}
+func (w *parkWriter) Write(p []byte) (int, error) {
+	if w.status == 0 {
+		w.status = 200
+	}
+	return w.body.Write(p)
+}
+
+func runProxyOverlap(gz bool, rounds int) string {
+	defer runtime.GOMAXPROCS(runtime.GOMAXPROCS(1))
+	lg := quietLog()
+	cfg := prom.NewConfigManager()
+	sm := scrape.New(false, lg)
+	cfg.AddReloadCallbacks(sm.ApplyConfig)
+	if err := cfg.ReloadFromRaw([]byte(sidecarCfg)); err != nil {
+		return ""
+	}
+	bodies := map[string][]byte{
+		"warm:80": mkPayload("many", 300, NewRng(1)),
+		"a:80":    mkPayload("many", 90000, NewRng(2)),
+		"b:80":    mkPayload("many", 60000, NewRng(3)),
+	}
+	ji := sm.GetJob("job0")
+	ji.Cli = &http.Client{Transport: &scriptedRT{f: func(req *http.Request) (*http.Response, error) {
+		plain := bodies[req.URL.Host]
+		wire := plain
+		h := http.Header{"Content-Type": []string{"text/plain; version=0.0.4"}}
+		if gz {
+			var zb bytes.Buffer
+			zw := gzip.NewWriter(&zb)
+			_, _ = zw.Write(plain)
+			_ = zw.Close()
+			wire = zb.Bytes()
+			h.Set("Content-Encoding", "gzip")
+		}
+		return &http.Response{StatusCode: 200, Status: "200 OK", Header: h, Body: io.NopCloser(bytes.NewReader(wire)), Request: req}, nil
+	}}}
+	status := map[uint64]*target.ScrapeStatus{1: target.NewScrapeStatus(0, 0), 2: target.NewScrapeStatus(0, 0)}
+	proxy := sidecar.NewProxy(sm.GetJob, func() map[uint64]*target.ScrapeStatus { return status }, cfg.ConfigInfo, prometheus.NewRegistry(), lg)
+	serve := func(w *parkWriter, host string, hash int) (aborted bool) {
+		defer func() {
+			if e := recover(); e != nil {
+				aborted = true
+			}
+		}()
+		u := fmt.Sprintf("http://%s/metrics?_jobName=job0&_hash=%d&_scheme=http", host, hash)
+		proxy.ServeHTTP(w, httptest.NewRequest("GET", u, nil))
+		return false
+	}
+	judge := func(who string, w *parkWriter, ab bool, want []byte) string {
+		if ab || (w.status != 0 && w.status != 200) {
+			return fmt.Sprintf("%s: the target answered correctly but the response was aborted=%v status=%d", who, ab, w.status)
+		}
+		if !bytes.Equal(w.body.Bytes(), want) {
+			return fmt.Sprintf("%s: %d bytes forwarded with status 200, the target served %d other bytes", who, w.body.Len(), len(want))
+		}
+		return ""
+	}
+	for round := 0; round < rounds; round++ {
+		w0 := &parkWriter{h: http.Header{}}
+		if v := judge("warm-up scrape", w0, serve(w0, "warm:80", 99), bodies["warm:80"]); v != "" {
+			return v
+		}
+		wa, wb := &parkWriter{h: http.Header{}}, &parkWriter{h: http.Header{}}
+		bStarted, aDone, bDone := make(chan struct{}), make(chan struct{}), make(chan struct{})
+		var abB bool
+		wa.onHeader = func() {
+			go func() {
+				defer close(bDone)
+				abB = serve(wb, "b:80", 2)
+			}()
+			select {
+			case <-bStarted:
+			case <-time.After(10 * time.Second):
+			}
+		}
+		wb.onHeader = func() {
+			close(bStarted)
+			select {
+			case <-aDone:
+			case <-time.After(10 * time.Second):
+			}
+		}
+		abA := serve(wa, "a:80", 1)
+		close(aDone)
+		select {
+		case <-bDone:
+		case <-time.After(20 * time.Second):
+			return "the second of two overlapping scrapes did not finish"
+		}
+		if v := judge(fmt.Sprintf("round %d, first of two overlapping scrapes", round), wa, abA, bodies["a:80"]); v != "" {
+			return v
+		}
+		if v := judge(fmt.Sprintf("round %d, second of two overlapping scrapes", round), wb, abB, bodies["b:80"]); v != "" {
+			return v
+		}
+	}
+	return ""
+}
+
 func runProxy(a Args) *Result {
 	res := newResult("proxy", a.seed, a.tier)
-	res.Rule = "scrapes through the real Proxy (httptest server, real HTTP client) of an in-memory target: payload kinds (empty, one line, comments/blank lines, lines the parser rejects, many lines, multi-MB in thorough), body handed out in scripted read sizes 1..64KiB+1, gzip or identity, every failure kind (unknown job, bad hash, connection error, non-200, stopped) and, for mid-body failures, every byte offset of a small body (thorough: of a 4 KiB body); non-trivial = the scrape reaches the body; distinct by encoded case"
+	res.Rule = "scrapes through the real Proxy (httptest server, real HTTP client) of an in-memory target: payload kinds (empty, one line, comments/blank lines, lines the parser rejects, many lines, multi-MB in thorough), body handed out in scripted read sizes 1..64KiB+1, gzip or identity, every failure kind (unknown job, bad hash, connection error, non-200, stopped) and, for mid-body failures, every byte offset of a small body (thorough: of a 4 KiB body); plus two scrapes overlapping in time (the second starts between the first one's response headers and its body), gzip and identity; non-trivial = the scrape reaches the body; distinct by encoded case"
 	rng := NewRng(a.seed)
 	n := 250
 	if a.tier == "thorough" {
@@ -379,6 +500,16 @@ func runProxy(a Args) *Result {
 		}
 	}
 	res.Evaluations = len(lines)
+	// two scrapes that overlap in time (the second starts after the first has its response headers and
+	// before it has read the body): each must deliver its own target's bytes.  Purely observational.
+	for _, gz := range []bool{true, false} {
+		if what := runProxyOverlap(gz, 4); what != "" {
+			res.ImplViol = capViol(res.ImplViol, Violation{Property: "C12", Clause: "overlap", Signature: "C12/overlap",
+				What: what, Case: map[string]interface{}{"case": map[string]interface{}{"kind": "overlapping scrapes", "gzip": gz}}}, 2)
+		}
+		res.Evaluations++
+		res.count("overlapping_scrape_rounds")
+	}
 	answers, err := runDriver(a.driver, "proxy", lines)
 	if err != nil {
 		res.Mismatch = append(res.Mismatch, Violation{Property: "*", Clause: "driver", Signature: "driver-failure", What: err.Error()})
